@@ -36,7 +36,7 @@ def shards(tier):
 
 def required_classes(tier):
     out = ["av:" + p for p in PERTS if p not in ("identity-key",)] + ["fav:" + p for p in ("sig-length", "key-plus-torsion", "honest", "drop-signer", "dup-signer", "subst-key", "empty", "empty-infinity", "bad-key", "sk-and-r-sk", "negated", "other-message")]
-    out += ["typed-variants", "mutable-list-reused", "msg:starts-with-own-pk", "agg:multiplicity", "agg:sum", "agg:permutation", "agg:bracketing", "agg:refuse", "agg:undecodable", "suite:basic", "suite:aug", "suite:pop", "n>=2"]
+    out += ["av:large-set", "fav:large-set", "agg:large-set", "typed-variants", "mutable-list-reused", "msg:starts-with-own-pk", "agg:multiplicity", "agg:sum", "agg:permutation", "agg:bracketing", "agg:refuse", "agg:undecodable", "suite:basic", "suite:aug", "suite:pop", "n>=2"]
     return out
 
 
@@ -52,6 +52,10 @@ def run(rec):
     order1 = params.BLS_H1 * R
     T_G1 = [CG.torsion_point(params.BLS_E1, order1, q, rng) for q in (3, 11)] + [params.BLS_E1.mul(params.BLS_E1.rand_point(rng), R)]
     inf_sig = Z.enc_g2(None)
+    if rec.shard in (0, 1, 2):
+        large_sets(rec, suites, rec.shard, quick)
+    for c_ in ("av:large-set", "fav:large-set", "agg:large-set"):
+        rec.case(c_, None, nontrivial=False)
     rounds = 1 if quick else 6
     for rd in range(rounds):
         suite = names[(rec.shard + rd) % 3]
@@ -269,6 +273,54 @@ def run(rec):
         fav("sk-and-r-sk", [pks[0], pk_neg], msg, MB.aggregate([fs[0], bmon.m_sign("pop", sk_neg, msg)]))
         if n >= 2:
             fav("sk-and-r-sk", pks + [pk_neg], msg, MB.aggregate(fs[1:]))       # identity-cancelling pair inside a larger honest set: sum rule says True
+
+
+def large_sets(rec, suites, part, quick):
+    """Signer sets larger than the sizes at which an interpreter or an encoding changes behaviour (257 > CPython's cached small
+    ints and one byte; 300): honest aggregate must verify, one duplicate message (basic) or one foreign signature must not."""
+    rng = rec.rng
+    names = list(suites)
+    sizes = [257] if quick else [257, 300, 513]
+    base_sks = [rng.randrange(1, R) for _ in range(5)]
+    for n in sizes:
+        if part == 0:
+            for suite in (["basic"] if quick else names):
+                S = suites[suite]
+                sks = [base_sks[j % 5] for j in range(n)]
+                pks = [bmon.register_key(sk) for sk in sks]
+                msgs = [j.to_bytes(2, "big") + rng.randbytes(6) for j in range(n)]
+                sigs = [bmon.m_sign(suite, sk, m) for sk, m in zip(sks, msgs)]
+                agg = MB.aggregate(sigs)
+                rec.case("av:large-set", ("avL", suite, n, agg), sample={"fn": "AggregateVerify", "suite": suite, "n_keys": n, "n_msgs": n, "perturbation": "honest"})
+                call(S.AggregateVerify, pks, msgs, agg)
+                m2 = list(msgs); m2[n - 1] = msgs[0]
+                rec.case("av:large-set", ("avL", suite, n, "dup-message"), sample={"fn": "AggregateVerify", "suite": suite, "n_keys": n, "perturbation": "last message repeats the first"})
+                call(S.AggregateVerify, pks, m2, agg)
+                rec.case("av:large-set", ("avL", suite, n, "short"), sample={"fn": "AggregateVerify", "suite": suite, "n_keys": n - 1, "n_msgs": n})
+                call(S.AggregateVerify, pks[:-1], msgs, agg)
+        elif part == 1:
+            S = suites["pop"]
+            sks = [rng.randrange(1, R) for _ in range(n)]
+            pks = [bmon.register_key(sk) for sk in sks]
+            msg = rng.randbytes(32)
+            Hm = bmon.m_sign_point("pop", 1, msg)
+            fagg = Z.enc_g2(E2.mul(Hm, sum(sks) % R))
+            rec.case("fav:large-set", ("favL", n, fagg), sample={"fn": "FastAggregateVerify", "n_keys": n, "perturbation": "honest"})
+            call(S.FastAggregateVerify, pks, msg, fagg)
+            rec.case("fav:large-set", ("favL", n, "drop"), sample={"fn": "FastAggregateVerify", "n_keys": n - 1, "perturbation": "drop-signer"})
+            call(S.FastAggregateVerify, pks[:-1], msg, fagg)
+        else:
+            S = suites[names[n % 3]]
+            sigs = []
+            Pt = E2.mul(params.bls_generators()[1], rng.randrange(1, R))
+            step = E2.mul(params.bls_generators()[1], rng.randrange(1, R))
+            for j in range(n):
+                Pt = E2.add(Pt, step)
+                sigs.append(Z.enc_g2(Pt))
+            rec.case("agg:large-set", ("aggL", n, tuple(sigs[:3])), sample={"fn": "Aggregate", "entries": n})
+            call(S.Aggregate, sigs)
+            rec.case("agg:large-set", ("aggL", n, "with repeats"), sample={"fn": "Aggregate", "entries": n + 2, "distinct": n})
+            call(S.Aggregate, sigs + sigs[:2])
 
 
 def replay(rec, case):
